@@ -65,6 +65,8 @@ func runC07(p *an.Prog, r *an.Run, tier string) {
 		r.Check(len(sb) == 0, "fail-clean", "payment:shared-digits", token.NoPos, "the payment service never mutates a balance it was handed in place", "%s", strings.Join(sb, "; "))
 	}
 	checkDepositCache(p, r)
+	checkBigIntOwnership(p, r)
+	checkKeyOperandTypes(p, r)
 	// the functions bound to the Settle field must report a failed payout
 	nBound := 0
 	for _, fn := range p.Repo {
